@@ -155,10 +155,10 @@ def check_series(case):
                             ('call-allkw', lambda ss: f(join=how, method=method, **dict(zip('abc', ss)))),
                             # keywords given in the REVERSE of the signature's order: first / last follow the caller's order (the results come back by parameter)
                             ('call-allkw-reversed', lambda ss: f(join=how, method=method, **dict(list(zip('abc', ss))[::-1])))]
-                if method in (None, 'ffill'):
-                    variants.append(('prop', lambda ss: (getattr(f, how).ffill if method == 'ffill' else getattr(f, how))(*ss)))
+                prop = ('prop', lambda ss: (getattr(f, how).ffill if method == 'ffill' else getattr(f, how).bfill if method == 'bfill' else getattr(f, how))(*ss))
                 if method == 'bfill' and case.get('quick'):
-                    variants = variants[1:2] + variants[3:4]          # quick tier: bfill through the call-time spellings only (ffill / None run all of them)
+                    variants = variants[1:2] + variants[3:4]          # quick tier: bfill through the call-time spellings and the property chain (ffill / None run all of them)
+                variants.append(prop)                                 # the policy property chained with the fill property: f.oj.ffill / f.rj.bfill
                 for vname, g in variants:
                     out.sub()
                     ss = fresh()
@@ -172,6 +172,23 @@ def check_series(case):
                             _check_seq_result(out, res, models, vdays, method, 'presync[%s](%s, %s, %s)' % (vname, desc, how, method), dict(f='presync-' + vname, **sig))
                     except Exception as e:
                         out.viol('raised', 'presync[%s](%s, %s, %s) raised %s: %s' % (vname, desc, how, method, type(e).__name__, e), f='presync-' + vname, **sig)
+    # an infinite observation is an observation: it is kept and carried by the as-of fill like any other value
+    if k == 2 and models[0]:
+        first_day = sorted(models[0])[0]
+        vals_inf = {d: (float('inf') if d == first_day else (None if models[0][d] is None else -float('inf') if d == sorted(models[0])[-1] else models[0][d])) for d in models[0]}
+        if vals_inf[first_day] is not None:
+            minf = [vals_inf, models[1]]
+            for how_ in ('oj', 'ij'):
+                days_ = tm.common_days(daysets, how_)
+                for method_ in ('ffill', 'bfill'):
+                    out.sub()
+                    try:
+                        res_ = df_sync([tm.build_series(m_) for m_ in minf], how_, method_)
+                        out.call()
+                        _check_seq_result(out, res_, minf, days_, method_, 'df_sync(%s with +inf / -inf as first / last observation of the first series, %s, %s)' % (desc, how_, method_),
+                                          dict(f='df_sync-inf', how=how_, method=method_, k=k))
+                    except Exception as e:
+                        out.viol('raised', 'df_sync(%s with infinite observations, %s, %s) raised %s: %s' % (desc, how_, method_, type(e).__name__, e), f='df_sync-inf', how=how_, method=method_, k=k)
     # explicit timeseries as the index
     out.sub()
     ss = fresh()
